@@ -287,7 +287,7 @@ theorem frame_pipe (s s' : RpqSt) (t : String) (pc pc' : Pc) (p : Nat) (ps ps' :
     (hpipes : s'.pipes = (s.setPipe ps').pipes)
     (hcap : s'.readyCap = s.readyCap)
     (hready : s'.ready = s.ready)
-    (hpc : pcPipe pc = some p) (hpc' : pcPipe pc' = some p)
+    (hpc : pcPipe pc = some p) (hpc' : pcPipe pc' = some p ∨ pcPipe pc' = none)
     (hprod : producerOn p pc' = true → producerOn p pc = true)
     (hok : pcOk pc')
     (hself : ∀ U T H P : Int,
@@ -303,8 +303,8 @@ theorem frame_pipe (s s' : RpqSt) (t : String) (pc pc' : Pc) (p : Nat) (ps ps' :
   have hsome : (s.pipe? p).isSome := by simp [hps]
   have hne : ∀ x, x ≠ p → pcPipe pc ≠ some x ∧ pcPipe pc' ≠ some x := by
     intro x hx
-    rw [hpc, hpc']
-    simp [Ne.symm hx]
+    rw [hpc]
+    rcases hpc' with h | h <;> rw [h] <;> simp [Ne.symm hx]
   refine frame s s' t pc pc' (fun q => if q.id == ps'.id then ps' else q) hw hi ht htasks hpipes hcap ?_ ?_ ?_ ?_ ?_ hok ?_
   · intro q
     by_cases h : q.id = ps'.id <;> simp [h]
@@ -369,7 +369,7 @@ theorem frame_pipe' (s s' : RpqSt) (t : String) (pc pc' : Pc) (p : Nat) (ps : Pi
         (P - pendingRes p pc + pendingRes p pc') (s.ready.count p)) :
     WellFormed s' ∧ Inv s' :=
   frame_pipe s s' t pc pc' p ps { ps with chan := ch, queued := qd, reserved := rs } hw hi ht hps rfl rfl rfl
-    htasks hpipes hcap hready hpc hpc' hprod hok hself
+    htasks hpipes hcap hready hpc (Or.inl hpc') hprod hok hself
 
 @[simp] theorem uncounted_finished (x : Nat) (r : String) : uncounted x (.finished r) = false := rfl
 @[simp] theorem takenNotCounted_finished (x : Nat) (r : String) : takenNotCounted x (.finished r) = false := rfl
